@@ -185,7 +185,7 @@ class assert_in(RuntimeAssertionFeedback):
 
     def condition(self, needle, haystack):
         """ Tests if the needle is not in the haystack """
-        return needle.value not in haystack.value
+        return unwrap_value(needle.value) not in unwrap_value(haystack.value)
 
 
 class assert_not_in(RuntimeAssertionFeedback):
@@ -201,7 +201,7 @@ class assert_not_in(RuntimeAssertionFeedback):
 
     def condition(self, needle, haystack):
         """ Tests if the needle is in the haystack """
-        return needle.value in haystack.value
+        return unwrap_value(needle.value) in unwrap_value(haystack.value)
 
 
 class assert_contains_subset(RuntimeAssertionFeedback):
@@ -217,7 +217,7 @@ class assert_contains_subset(RuntimeAssertionFeedback):
 
     def condition(self, needles, haystack):
         """ Tests if the needle is not in the haystack """
-        return not all(needle in haystack.value for needle in needles.value)
+        return not all(needle in unwrap_value(haystack.value) for needle in unwrap_value(needles.value))
 
 
 class assert_not_contains_subset(RuntimeAssertionFeedback):
@@ -233,7 +233,7 @@ class assert_not_contains_subset(RuntimeAssertionFeedback):
 
     def condition(self, needles, haystack):
         """ Tests if the needle is not in the haystack """
-        return all(needle in haystack.value for needle in needles.value)
+        return all(needle in unwrap_value(haystack.value) for needle in unwrap_value(needles.value))
 
 
 class assert_is(RuntimeAssertionFeedback):
